@@ -3,6 +3,8 @@
 package boltz
 
 import (
+	"strings"
+
 	"go.etcd.io/bbolt"
 
 	"github.com/openziti/storage/ast"
@@ -76,16 +78,29 @@ func verifC02Rows(n int, spec []vSortField) []*vRow {
 	return rows
 }
 
-func verifC02(specs []vSortSpec) {
+func verifC02(specs []vSortSpec) { verifC02N(specs, 0, "", false) }
+
+// maxRows 0: 2 rows quick, 3 thorough; keepNull: fields whose keys stay null;
+// noPaging: no skip / limit
+func verifC02N(specs []vSortSpec, maxRows int, keepNull string, noPaging bool) {
 	n := 2
 	if verifrt.Tier() == 1 {
 		n = 3
+	}
+	if maxRows > 0 {
+		n = maxRows
 	}
 	spec := specs[verifrt.Choose("spec", len(specs))]
 	env := verifNewRowEnv()
 	defer env.close()
 	nRows := verifrt.Choose("rows", n+1)
-	rows := verifC02Rows(nRows, spec.fields)
+	var fields []vSortField
+	for _, f := range spec.fields {
+		if !strings.Contains(keepNull, f.Field) {
+			fields = append(fields, f)
+		}
+	}
+	rows := verifC02Rows(nRows, fields)
 	err := env.update(func(ctx MutateContext) error {
 		for _, r := range rows {
 			if err := env.rows.Create(ctx, r); err != nil {
@@ -95,7 +110,10 @@ func verifC02(specs []vSortSpec) {
 		return nil
 	})
 	verifrt.Assert(err == nil, "C02 creating rows succeeds")
-	p := verifrt.SymPaging()
+	p := verifrt.Paging{}
+	if !noPaging {
+		p = verifrt.SymPaging()
+	}
 	env.view(func(tx *bbolt.Tx) {
 		q, err := ast.Parse(env.rows, spec.text)
 		verifrt.Assert(err == nil, "C02 query parses: "+spec.text)
@@ -132,14 +150,26 @@ func VerifC02_FiveFieldTies() {
 }
 
 // quick: one single-field sort per key type and direction mix plus one
-// two-field sort; thorough: every listed specification (incl. the five-field
-// one) over three rows.
+// two-field sort over two rows; thorough: every single- and two-field
+// specification over three rows.
 func VerifC02_SortedPaging() {
 	if verifrt.Tier() == 1 {
-		verifC02(vSortSpecs[3 : len(vSortSpecs)-1])
+		verifC02(vSortSpecs[3 : len(vSortSpecs)-2])
 		return
 	}
 	verifC02([]vSortSpec{vSortSpecs[3], vSortSpecs[6], vSortSpecs[8], vSortSpecs[10]})
+}
+
+// the five-field specification with arbitrary (nullable) keys in every
+// field: two rows (three rows x four nullable symbolic keys x paging is past
+// the path budget; ties on a prefix of the fields are covered by two rows)
+func VerifC02_FiveFieldSort() {
+	spec := []vSortSpec{vSortSpecs[len(vSortSpecs)-2]}
+	if verifrt.Tier() == 1 {
+		verifC02N(spec, 2, "", true) // every key arbitrary, whole result
+		return
+	}
+	verifC02N(spec, 2, "sf", false) // s and f stay null (ties carried through them), paging symbolic
 }
 
 func verifToRows(rows []*vRow) []*verifrt.Row {
